@@ -1,8 +1,8 @@
 (* Num/C14ModelProofs.v — the executable judge of the correspondence run (Num/C14Model.v) accepts the model's own
    observations, for ALL inputs: so a `fails` verdict on the implementation is a statement about the implementation, and
    the judge's conditions are consequences of the theorems of Num/*Proofs.v. *)
-From CSL Require Import Base.Prelude Base.U64 Cbor.Head Num.Decimal Num.U64 Num.IntRange Num.BigIntCbor Num.Value Num.C14Model.
-From CSL Require Import Num.U64Proofs Num.DecimalProofs Num.IntRangeProofs Num.BigIntCborProofs Num.ValueProofs.
+From CSL Require Import Base.Prelude Base.U64 Cbor.Head Num.Decimal Num.U64 Num.IntRange Num.BigIntCbor Num.Value Num.Mint Num.C14Model.
+From CSL Require Import Num.U64Proofs Num.DecimalProofs Num.IntRangeProofs Num.BigIntCborProofs Num.ValueProofs Num.MintProofs.
 Local Open Scope N_scope.
 
 Lemma resN_eqb_refl r : resN_eqb r r = true.
@@ -13,6 +13,8 @@ Lemma optN_eqb_refl o : optN_eqb o o = true.
 Proof. destruct o; cbn; auto using N.eqb_refl. Qed.
 Lemma optZ_eqb_refl o : optZ_eqb o o = true.
 Proof. destruct o; cbn; auto using Z.eqb_refl. Qed.
+Lemma text_eqb_refl t : text_eqb t t = true.
+Proof. induction t as [|c t IH]; cbn [text_eqb]; [reflexivity | rewrite N.eqb_refl; exact IH]. Qed.
 
 (* ---- BigNum ---- *)
 Theorem judge_bn_accepts op a b : a < two64 -> b < two64 ->
@@ -46,7 +48,15 @@ Proof.
         try (injection O as <-; unfold int_new, int_new_negative, int_new_i32; rewrite Z.eqb_refl; reflexivity).
       unfold bigint_as_int in O. destruct (Z.abs z0 <? two64Z)%Z; [|discriminate]. injection O as <-.
       rewrite Z.eqb_refl. reflexivity. }
-    change (io_val (int_observe z)) with z. rewrite V, (judge_int_obs_accepts z R).
+    assert (TX : int_src_text_ok src z = true).
+    { unfold int_obtain in O. destruct src; cbn [int_src_text_ok int_obtain_gen] in *; try reflexivity.
+      - unfold int_from_str in O. destruct (parse_i128 s) as [x| | |] eqn:P; cbn [bind] in O; try discriminate.
+        destruct (int_in_range x); [|discriminate]. injection O as <-.
+        destruct (parse_i128_canon s x P) as [_ C]. rewrite C. apply text_eqb_refl.
+      - unfold meta_key_int_gen in O. destruct (parse_i128 s) as [x| | |] eqn:P; try discriminate.
+        destruct meta_key_checked; [destruct ((- int_max <=? x)%Z && (x <=? int_max)%Z); [|discriminate]|]; injection O as <-;
+          destruct (parse_i128_canon s x P) as [_ C]; rewrite C; apply text_eqb_refl. }
+    change (io_val (int_observe z)) with z. rewrite V, TX, (judge_int_obs_accepts z R). cbn [negb].
     destruct (z =? int_min)%Z eqn:M.
     + apply Z.eqb_eq in M. subst z. right. split; [|reflexivity]. destruct src; reflexivity.
     + left. destruct src; reflexivity.
@@ -125,18 +135,37 @@ Theorem judge_mint_accepts ops : forallb (fun op => int_in_range (mint_op_amount
   judge_mint ops (model_mint ops) = Holds.
 Proof.
   intros W. unfold judge_mint, model_mint.
-  pose proof (mint_run_in_range ops [] (Forall_nil _) W) as R.
+  pose proof (mint_run_mint_range ops [] (Forall_nil _) W) as R.
   destruct (mint_run mint_step [] ops) as [s oks]. cbn [fst snd] in *.
   unfold mint_build. destruct (forallb (fun kv : N * Z => negb (snd kv =? 0)%Z) s) eqn:NZ; cbn [bind snd]; [|reflexivity].
-  assert (A : forall k, match option_map (fun z => (z, int_serialize z)) (ms_get k s) with
-                        | Some (z, bs) => int_in_range z && resZ_eqb (int_from_bytes bs) (Ok z) && negb (z =? 0)%Z
-                        | None => true end = true).
-  { intros k. destruct (ms_get k s) as [z|] eqn:G; [|reflexivity]. cbn [option_map].
-    pose proof (ms_get_in_range k s z R G) as Rz. rewrite Rz, (int_from_bytes_roundtrip z Rz), resZ_eqb_refl. cbn [andb].
-    clear R Rz. induction s as [|[k' v'] s IH]; cbn [ms_get] in G; [discriminate|].
-    cbn [forallb] in NZ. apply andb_true_iff in NZ. destruct NZ as [N1 N2].
-    destruct (k =? k'); [injection G as <-; exact N1 | auto]. }
+  assert (A : forall k, judge_mint_entry (option_map mint_observe_entry (ms_get k s)) = true).
+  { intros k. destruct (ms_get k s) as [z|] eqn:G; [|reflexivity]. cbn [option_map judge_mint_entry mint_observe_entry].
+    pose proof (ms_get_mint_range k s z R G) as Rz. destruct (in_mint_range_int z Rz) as [Ri Rm].
+    destruct (int_accessors_exact z Ri Rm) as [P [Ng _]]. rewrite P, Ng, (int_from_bytes_roundtrip z Ri), resZ_eqb_refl.
+    assert (NZz : (z =? 0)%Z = false).
+    { clear R Rz P Ng. induction s as [|[k' v'] s IH]; cbn [ms_get] in G; [discriminate|].
+      cbn [forallb] in NZ. apply andb_true_iff in NZ. destruct NZ as [N1 N2].
+      destruct (k =? k'); [injection G as <-; cbn [snd] in N1; destruct (v' =? 0)%Z; [discriminate | reflexivity] | auto]. }
+    rewrite NZz. unfold in_mint_range in Rz.
+    replace ((mint_min <=? z)%Z && (z <=? int_max)%Z) with true by lia. cbn [andb negb orN].
+    destruct (0 <=? z)%Z eqn:S1.
+    - replace (z <? 0)%Z with false by lia. cbn [orN].
+      replace (Z.of_N (Z.to_N z) =? Z.max z 0)%Z with true by lia. replace (Z.of_N 0 =? Z.max (- z) 0)%Z with true by lia. reflexivity.
+    - replace (z <? 0)%Z with true by lia. cbn [orN].
+      replace (Z.of_N 0 =? Z.max z 0)%Z with true by lia. replace (Z.of_N (Z.to_N (- z)) =? Z.max (- z) 0)%Z with true by lia. reflexivity. }
   unfold mint_keys. cbn [map forallb]. rewrite !A. reflexivity.
+Qed.
+
+(* ---- Mint conversions ---- *)
+Theorem judge_mintv_accepts m : mint_wfb m = true -> mint_has_min m = false -> has_dup_policy m = false ->
+  judge_mintv m (model_mintv m) = Holds.
+Proof.
+  intros W M D. unfold judge_mintv, model_mintv. rewrite W. cbn [negb fst snd].
+  pose proof (mint_ok_of_bool m W M) as OK.
+  assert (S : forall s, mintv_side_ok s m (mint_as_multiasset s m) = true).
+  { intros s. destruct (mint_as_multiasset_exact s m OK D) as [Wr Q]. unfold mintv_side_ok. rewrite Wr. cbn [andb].
+    apply forallb_forall. intros [p n] _. cbn [fst snd]. rewrite Q. apply Z.eqb_refl. }
+  unfold mint_as_positive_multiasset, mint_as_negative_multiasset. rewrite !S. reflexivity.
 Qed.
 
 (* ---- Value ---- *)
@@ -258,4 +287,37 @@ Proof.
   destruct (add3_r_cases a b c Wa Wb Wc) as [[y [E2 [N2 [C2 [Q2 _]]]]] | [E2 N2]]; rewrite E1, E2; try tauto.
   rewrite value_eqb_sem_keys_intro by (split; [lia | intros p n; rewrite Q1, Q2; reflexivity]).
   rewrite C1, N.eqb_refl, all_keys_intro by (intros p n; rewrite Q1; apply N.eqb_refl). reflexivity.
+Qed.
+
+(* ---- text entry points ---- *)
+Theorem judge_bnstr_accepts s : judge_bnstr s (model_bnstr s) = Holds.
+Proof.
+  unfold judge_bnstr, model_bnstr, bn_from_str. destruct (parse_u64 s) as [n| | |] eqn:P; try reflexivity.
+  - destruct (parse_u64_canon s n P) as [B C]. rewrite C, text_eqb_refl. replace (n <? two64) with true by lia. reflexivity.
+  - exfalso. unfold parse_u64 in P. destruct (match s with [] => [] | c :: r => if c =? ch_plus then r else s end); [discriminate|].
+    destruct (parse_digits _ 0) as [v|]; [destruct (v <? two64)|]; discriminate.
+  - exfalso. unfold parse_u64 in P. destruct (match s with [] => [] | c :: r => if c =? ch_plus then r else s end); [discriminate|].
+    destruct (parse_digits _ 0) as [v|]; [destruct (v <? two64)|]; discriminate.
+Qed.
+
+Lemma parse_biguint_total s : parse_biguint s = Err \/ exists n, parse_biguint s = Ok n.
+Proof.
+  unfold parse_biguint. destruct (match s with [] => s | c :: tail => if (c =? ch_plus) && negb (starts_with ch_plus tail) then tail else s end) as [|c r]; [left; reflexivity|].
+  destruct (c =? ch_underscore); [left; reflexivity|]. destruct (parse_digits_us (c :: r) 0); [right; eauto | left; reflexivity].
+Qed.
+
+Theorem judge_bistr_accepts s : judge_bistr s (model_bistr s) = Holds.
+Proof.
+  unfold judge_bistr, model_bistr, bigint_from_str. destruct (parse_bigint s) as [z| | |] eqn:P; try reflexivity.
+  - rewrite bigint_decimal_roundtrip, resZ_eqb_refl, (parse_bigint_canon s z P), text_eqb_refl. reflexivity.
+  - exfalso. unfold parse_bigint in P. destruct s as [|c tail].
+    + destruct (parse_biguint_total []) as [E | [n E]]; rewrite E in P; discriminate.
+    + destruct (c =? ch_minus).
+      * destruct (parse_biguint_total (if starts_with ch_plus tail then c :: tail else tail)) as [E | [n E]]; rewrite E in P; discriminate.
+      * destruct (parse_biguint_total (c :: tail)) as [E | [n E]]; rewrite E in P; discriminate.
+  - exfalso. unfold parse_bigint in P. destruct s as [|c tail].
+    + destruct (parse_biguint_total []) as [E | [n E]]; rewrite E in P; discriminate.
+    + destruct (c =? ch_minus).
+      * destruct (parse_biguint_total (if starts_with ch_plus tail then c :: tail else tail)) as [E | [n E]]; rewrite E in P; discriminate.
+      * destruct (parse_biguint_total (c :: tail)) as [E | [n E]]; rewrite E in P; discriminate.
 Qed.
